@@ -3,3 +3,6 @@ import TinsModel.Props.C01
 #print axioms Tins.Props.C01.chain_parse_safe
 #print axioms Tins.Props.C01.parse_any_safe
 #print axioms Tins.Props.C01.parsed_layers_good
+#print axioms Tins.Props.C01.entry_scan_complete
+#print axioms Tins.Props.C01.entry_points_covered
+#print axioms Tins.Props.C01.wire_modelled_safe
